@@ -11,14 +11,12 @@ use identity_credential::presentation::{JwtPresentationOptions, Presentation};
 use identity_credential::revocation::status_list_2021::{StatusList2021Credential, StatusList2021Entry};
 use identity_credential::revocation::RevocationBitmap;
 use identity_credential::validator::{JwtCredentialValidatorUtils, StatusCheck, SubjectHolderRelationship};
-use identity_did::{CoreDID, DIDUrl};
+use identity_did::{CoreDID, DIDUrl, DID};
 use identity_document::document::CoreDocument;
 use identity_document::service::{Service, ServiceEndpoint};
 use identity_iota_core::{IotaDocument, IotaDocumentMetadata, StateMetadataDocument, StateMetadataEncoding};
 use identity_jose::jwk::{Jwk, JwkSet};
 use identity_verification::{MethodData, MethodRef, MethodScope, VerificationMethod};
-use std::collections::hash_map::DefaultHasher;
-use std::hash::{Hash, Hasher};
 use vx::{json, Ctx};
 
 // ------------------------------------------------------------------------------------------------ JSON tree
@@ -364,11 +362,6 @@ pub fn run_json_sweeps(ctx: &Ctx, part: &str, sweeps: &[JsonSweep], pairs: bool,
 }
 
 // ------------------------------------------------------------------------------------------------ accessors
-fn hash_of<T: Hash>(t: &T) -> u64 {
-  let mut h = DefaultHasher::new();
-  t.hash(&mut h);
-  h.finish()
-}
 
 pub fn jwk_accessors(k: &Jwk) {
   st("Jwk::getters");
@@ -395,7 +388,7 @@ pub fn jwk_accessors(k: &Jwk) {
     bb(p.to_public().map(|q| q.thumbprint_sha256_b64()));
   }
   st("Jwk::to_json/Debug/Hash");
-  bb((k.to_json().is_ok(), format!("{k:?}").len(), hash_of(k)));
+  bb((k.to_json().is_ok(), format!("{k:?}").len()));
   st("Jwk::set_params");
   let mut c = k.clone();
   bb(c.set_params(k.params().clone()).is_ok());
@@ -585,9 +578,9 @@ pub fn core_document_accessors(d: &CoreDocument) {
   let mapped = d.clone().try_map(
     |did| Ok::<_, identity_document::Error>(did),
     |did| Ok(did),
-    |_did| CoreDID::parse("did:example:other"),
+    |_did| Ok(CoreDID::parse("did:example:other").unwrap()),
     |did| Ok(did),
-    |_e: identity_did::Error| identity_document::Error::InvalidDocument("x", None),
+    |e: identity_document::Error| e,
   );
   bb(mapped.is_ok());
   st("CoreDocument::revoke_credentials");
@@ -646,7 +639,7 @@ pub fn status_accessors(s: &Status) {
   st("RevocationBitmapStatus::try_from");
   if let Ok(r) = RevocationBitmapStatus::try_from(s.clone()) {
     st("RevocationBitmapStatus::id/index");
-    bb((r.id().map(|u| u.to_string()).ok(), r.index().ok(), r.to_json().is_ok()));
+    bb((r.id().map(|u| u.to_string()).ok(), r.index().ok(), format!("{r:?}").len()));
     st("RevocationBitmapStatus>Status::from");
     bb(Status::from(r).to_json().is_ok());
   }
@@ -654,8 +647,6 @@ pub fn status_accessors(s: &Status) {
   if let Ok(e) = StatusList2021Entry::try_from(s) {
     entry_accessors(&e);
   }
-  st("RevocationTimeframeStatus::try_from");
-  bb(identity_credential::revocation::validity_timeframe_2024::RevocationTimeframeStatus::try_from(s).is_ok());
 }
 
 pub fn entry_accessors(e: &StatusList2021Entry) {
@@ -1019,7 +1010,7 @@ pub const SEED_SERVICE_LVP: &str = r##"{"id":"did:example:123#lvp","type":"Linke
 
 pub const SEED_CREDENTIAL: &str = r##"{"@context":["https://www.w3.org/2018/credentials/v1","https://www.w3.org/2018/credentials/examples/v1"],"id":"https://example.edu/credentials/3732","type":["VerifiableCredential","UniversityDegreeCredential"],
  "credentialSubject":{"id":"did:example:subject","degree":{"type":"BachelorDegree","name":"Bachelor of Science and Arts"}},"issuer":{"id":"did:example:123","name":"issuer"},"issuanceDate":"2010-01-01T19:23:24Z","expirationDate":"2030-01-01T19:23:24Z",
- "credentialStatus":{"id":"did:example:123?index=5#rev","type":"RevocationBitmap2022","revocationBitmapIndex":"5"},
+ "credentialStatus":{"id":"did:example:123?index=7#rev","type":"RevocationBitmap2022","revocationBitmapIndex":"7"},
  "credentialSchema":{"id":"https://example.org/examples/degree.json","type":"JsonSchemaValidator2018"},"refreshService":{"id":"https://example.edu/refresh/3732","type":"ManualRefreshService2018"},
  "termsOfUse":[{"type":"IssuerPolicy","id":"https://example.com/policies/credential/4"}],"evidence":{"id":"https://example.edu/evidence/f2aeec97","type":["DocumentVerification"]},"nonTransferable":true,
  "proof":{"type":"RsaSignature2018","created":"2017-06-18T21:19:10Z"},"custom":"x"}"##;
